@@ -80,3 +80,40 @@ def Kids.drawable (slot : Nat) : Kids → Bool
   | .cons l n r => keyOK (keyOf slot l).toList && Node.drawable n && Kids.drawable slot r
 termination_by structural k => k
 end
+
+/-! ### the tree of printed labels -/
+
+mutual
+/-- a node as the drawing shows it: printed label, mark, children in printing order (the seven child vectors one after
+the other) -/
+inductive KT where
+  | mk (key : List Char) (marked : Bool) (kids : KTs)
+inductive KTs where
+  | nil
+  | cons (t : KT) (rest : KTs)
+end
+
+def KTs.app : KTs → KTs → KTs
+  | .nil, b => b
+  | .cons t r, b => .cons t (KTs.app r b)
+
+mutual
+def KT.flat (d : Nat) : KT → List (Nat × List Char × Bool)
+  | .mk k m kids => (d, k, m) :: KTs.flat (d + 1) kids
+def KTs.flat (d : Nat) : KTs → List (Nat × List Char × Bool)
+  | .nil => []
+  | .cons t r => KT.flat d t ++ KTs.flat d r
+end
+
+mutual
+/-- the children of a node as the drawing shows them -/
+def Node.kidTrees : Node → KTs
+  | .mk _ s dc dy wc w ec e _ _ _ =>
+    (Kids.ktrees 0 s).app ((Kids.ktrees 1 dc).app ((Kids.ktrees 2 dy).app ((Kids.ktrees 3 wc).app
+      ((Kids.ktrees 4 w).app ((Kids.ktrees 5 ec).app (Kids.ktrees 6 e))))))
+termination_by structural n => n
+def Kids.ktrees (slot : Nat) : Kids → KTs
+  | .nil => .nil
+  | .cons l n r => .cons (.mk (keyOf slot l).toList n.data.isSome (Node.kidTrees n)) (Kids.ktrees slot r)
+termination_by structural k => k
+end
